@@ -5,9 +5,9 @@ package main
 import (
 	"encoding/json"
 	"flag"
+	"fmt"
 	"go/ast"
 	"go/printer"
-	"fmt"
 	"os"
 	"strconv"
 	"strings"
@@ -185,7 +185,11 @@ func dump(args []string) {
 		fi := p.Info(fn)
 		fmt.Printf("=== %s\n", fn)
 		for _, b := range fn.Blocks {
-			fmt.Printf(" block %d (%s) preds=%d held=%v guards: %v\n", b.Index, b.Comment, len(b.Preds), p.HeldAt(b.Instrs[0]).Names(), fi.Guards(b))
+			gfi := fi
+			if os.Getenv("KVCHECK_DEEP") != "" {
+				gfi = fi.Deep() // guards with helper predicates looked through
+			}
+			fmt.Printf(" block %d (%s) preds=%d held=%v guards: %v\n", b.Index, b.Comment, len(b.Preds), p.HeldAt(b.Instrs[0]).Names(), gfi.Guards(b))
 			for _, in := range b.Instrs {
 				if v, ok := in.(ssa.Value); ok {
 					fmt.Printf("    %-6s = %-50s  ⟦%s⟧\n", v.Name(), in.String(), fi.T(v).S)
